@@ -15,6 +15,7 @@ var verifC09Points = [...]string{
 	"run.entered", "run.before-reset", "run.after-reset",
 	"pool.before-register", "pool.registered", "invoke.checked", "pool.before-release",
 	"eval.before-check", "eval.started",
+	"script.mark", // a Go function called by the script (scenario 6): the run is in progress, at any call depth
 }
 
 const (
@@ -72,6 +73,7 @@ func verifC09Window(scenario int, point string, onRoot, more bool) string {
 //	3 as 1 with a non-pooled child
 //	4 a callback that runs two pooled children in turn: the first returns, the second is endless
 //	5 a callback whose pooled child returns, followed by an endless loop on the root
+//	6 an endless loop at call depth 2 under live try statements at depths 0 and 1
 //
 // point (first placement), two (0: one placement; 1: a second placement
 // follows). The occurrence of the first placement and the whole second
@@ -147,6 +149,12 @@ func VerifC09Abort() {
 		"cb": &Function{Name: "cb", ValueEx: func(c Call) (Object, error) {
 			return invoke(c, c.Get(0), scenario != 3)
 		}},
+		"mark": &Function{Name: "mark", ValueEx: func(c Call) (Object, error) {
+			if VerifSyncHook != nil {
+				VerifSyncHook("script.mark", c.VM())
+			}
+			return Undefined, nil
+		}},
 		"cb2": &Function{Name: "cb2", ValueEx: func(c Call) (Object, error) {
 			more = true
 			if _, err := invoke(c, c.Get(0), true); err != nil {
@@ -169,6 +177,8 @@ func VerifC09Abort() {
 		src = `global cb2; f := func() { return 1 }; h := func() { for {} }; return cb2(f, h)`
 	case 5:
 		src = `global cb; f := func() { return 1 }; cb(f); for {}`
+	case 6:
+		src = `global mark; f := func() { mark(); for {} }; g := func() { try { return f() } catch e { return 0 } finally { } }; h := func() { try { return g() } finally { } }; return h()`
 	}
 	if scenario == 2 {
 		ctx, cf := context.WithCancel(context.Background())
@@ -220,9 +230,11 @@ func VerifC09Abort() {
 	// (the later script calls script functions through the same kind of Go
 	// callback, so child VMs that went back to the process-wide pool while
 	// aborted are observed too)
-	later := `return 6 * 7`
-	if scenario != 0 {
-		later = `global cb; f := func() { return 40 }; h := func() { return 1 }; return cb(f) + cb(h) + 1`
+	// and throws and catches inside functions at call depths 1 and 2, where an
+	// aborted run may have left handlers behind
+	later := `k := func(y) { if y { throw "t" }; return 40 }; w := func(y) { return k(y) }; r := 0; try { w(1) } catch e { r = 2 }; return w(0) + r`
+	if scenario != 0 && scenario != 6 {
+		later = `global cb; k := func(y) { if y { throw "t" }; return 39 }; r := 0; try { k(1) } catch e { r = 1 }; f := func() { return k(0) }; h := func() { return 1 }; return cb(f) + cb(h) + r + 1`
 	}
 	bc2, _ := Compile([]byte(later), CompilerOptions{})
 	var v Object
